@@ -135,6 +135,8 @@ class _Parts:
             fac.randomize(c, g, wscale=(5.0 if k in ("lateral", "feedback") else 1.5), delay_steps=desc["delay"], dt=dt)
         for n in list(self.conns.values()) + list(self.neurons.values()):
             n.train()
+            if desc.get("f64"):
+                n.to(torch.float64)
         if desc.get("prefire_neurons"):
             # the components have a past: every neuron group is driven to spike once before the layer is built
             for n in self.neurons.values():
